@@ -20,7 +20,7 @@ UUID4 = re.compile(r"^[0-9a-f]{8}-[0-9a-f]{4}-4[0-9a-f]{3}-[89ab][0-9a-f]{3}-[0-
 
 PROFILE = grammar.profile(
     p_auto_populate=0.7, p_create=0.9, p_custom=0.8, p_update=0.4, p_delete=0.5, p_get=0.5, p_list=0.2, p_yaml=1.0,
-    p_sstream=0.1, p_cstream=0.0, p_bidi=0.0, p_lro=0.1, p_service_config=0.9, p_signature=0.85,
+    p_sstream=0.1, p_cstream=0.0, p_bidi=0.0, p_lro=0.5, p_service_config=0.9, p_signature=0.85,
     transports=["grpc", "grpc+rest", "grpc+rest"])
 
 BUDGET = {
@@ -29,7 +29,7 @@ BUDGET = {
 }
 REQUIRED_PROBES = ["populated", "caller_value_kept", "explicit_empty_on_optional_kept", "empty_on_plain_populated",
                    "populated_on_retry_attempt", "concurrent_callers", "kwargs_form", "async_populated",
-                   "two_fields", "decoy_untouched", "non_auto_method", "rest_call"]
+                   "two_fields", "decoy_untouched", "non_auto_method", "rest_call", "lro_method"]
 ASSUMPTIONS = ["that all attempts of one invocation carry the same id is recorded (probe same_id_across_attempts) "
                "but not judged: the property does not state it",
                "re-submitting the very same request object is not judged (the library fills the caller's object in "
@@ -55,6 +55,10 @@ def unary_methods(spec):
     out = []
     for fs, s, m in c09.eligible_methods(spec):
         if find_message(spec, m["input"]) is not None:
+            out.append((fs, s, m, auto_fields(spec, fs, s, m)))
+    # long-running methods are unary RPCs too (Create*/Rebuild* with request_id is the classic AIP-4235 case)
+    for fs, s, m in grammar.all_methods(spec):
+        if m["output"] == ".google.longrunning.Operation" and not m.get("client_streaming") and find_message(spec, m["input"]) is not None:
             out.append((fs, s, m, auto_fields(spec, fs, s, m)))
     return out
 
@@ -133,11 +137,32 @@ def gen_op(spec, rng, fs, s, m, af, oid, client="sync"):
             script.append({"code": rng.choice(codes), "lat": rng.choice([0.0, 0.01])})
     script.append({"lat": rng.choice([0.0, 0.0, 0.02, 0.1]), "reply": {}})
     op["server"] = script
+    if m["output"] == ".google.longrunning.Operation":
+        op["kind"] = "lro"
+        op["raw"] = m.get("lro") is None
+        op["initial_done"] = True
+        op["op_name"] = f"projects/p1/operations/{oid}"
+        op["final"] = {"error": {"code": "ABORTED", "message": "x"}}     # resolves without polling, result not judged here
+        op["send_metadata"] = False
+        op["meta_vals"] = [{}]
+        op["server"] = [x for x in script if x.get("code")]
     return op
 
 
 def server_factory(run):
-    return engine.scripted_server(run)
+    from . import c08
+    lro = c08.server_factory(run)
+    plain = engine.scripted_server(run)
+
+    def serve(call):
+        op = run.ops.get(call["op"])
+        if op is not None and op["kind"] == "lro":
+            faults = op.get("server") or []
+            if call["n"] <= len(faults):
+                return {"lat": faults[call["n"] - 1].get("lat", 0.0), "code": faults[call["n"] - 1]["code"]}
+            return lro(call)
+        return plain(call)
+    return serve
 
 
 def execute(world, scenario):
@@ -199,6 +224,8 @@ def judge(spec, scenario, history):
         fields = {f["name"]: f for f in req["fields"]}
         if not af:
             _bump(probes, "non_auto_method")
+        if op["kind"] == "lro" and af:
+            _bump(probes, "lro_method")
         if len(af) > 1:
             _bump(probes, "two_fields")
         for f in af:
